@@ -231,6 +231,16 @@ fn block_before_rewrites(src: &str, toks: &[RTok]) -> Vec<TextRewrite> {
         )
     };
     let plain_operand = |t: &RTok| matches!(t.ty, T::Number | T::CharList | T::Identifier | T::True | T::False | T::UnitLiteral | T::Symbol | T::Value);
+    // ... and as the first thing inside a group or an expression literal that is not the program's first token
+    for i in 1..toks.len().saturating_sub(1) {
+        if matches!(toks[i].ty, T::StartGroup | T::StartExpression) {
+            let k = if is_blank_only(&toks[i + 1]) { i + 2 } else { i + 1 };
+            if k < toks.len() && plain_operand(&toks[k]) {
+                let at = toks[k].at;
+                out.push(TextRewrite { kind: "block-first-in-group", text: splice(&s, at, at, "[0] "), gated: false });
+            }
+        }
+    }
     for i in 0..toks.len().saturating_sub(2) {
         if operator(&toks[i]) && is_blank_only(&toks[i + 1]) && plain_operand(&toks[i + 2]) {
             // a float operand right after `]` would be lexed differently: keep to operands that cannot start with a period
@@ -752,7 +762,7 @@ pub fn run(ctx: &Ctx) -> (Acc, String, bool) {
         }
     });
     let rule = format!(
-        "every core-language AST of <= {} nodes ({} programs) and {} random programs (depth <= 5) and the 72 bounded restart loops of C01; on each: every single application, at every position, of: widen a blank run with space / tab / several, blank to tab, annotation in a blank run, comment line in a blank run, remove a blank run, insert a blank / an annotation between adjacent tokens, trailing blanks before a line break and at the end, blanks on the empty line of a blank-line separator, comment line after a line break and at the start (text rewrites admitted only when the reference lexer sees the same significant tokens and, for the gated ones, the reference parser the same tree); parentheses around every operand; an effect-free side-effect block added after every value or group, and before every plain operand that follows a binary operator or a comma; effect-free blocks dropped; plus random combinations of 2..7 rewrites; the text rewrites (single, and combinations) also on every script under the repository's tests/scripts. Parse tree (modulo trivia / added groups / added blocks), final value on both stores and host resolve sequence are compared with the unrewritten program's.",
+        "every core-language AST of <= {} nodes ({} programs) and {} random programs (depth <= 5) and the 72 bounded restart loops of C01; on each: every single application, at every position, of: widen a blank run with space / tab / several, blank to tab, annotation in a blank run, comment line in a blank run, remove a blank run, insert a blank / an annotation between adjacent tokens, trailing blanks before a line break and at the end, blanks on the empty line of a blank-line separator, comment line after a line break and at the start (text rewrites admitted only when the reference lexer sees the same significant tokens and, for the gated ones, the reference parser the same tree); parentheses around every operand; an effect-free side-effect block added after every value or group, before every plain operand that follows a binary operator or a comma, and as the first thing inside a group or expression literal; effect-free blocks dropped; plus random combinations of 2..7 rewrites; the text rewrites (single, and combinations) also on every script under the repository's tests/scripts. Parse tree (modulo trivia / added groups / added blocks), final value on both stores and host resolve sequence are compared with the unrewritten program's.",
         k, small_total, random_total
     );
     (acc, rule, false)
